@@ -37,7 +37,7 @@ def main():
     pid, x = sys.argv[1], sys.argv[2]
     suite = "--suite" in sys.argv
     nocheck = "--no-check" in sys.argv
-    src = "/tmp/mut/%s.out" % pid if x in ("A", "B") else ("/tmp/mut/%s.r2.out" % pid if x in ("C", "D") else ("/tmp/mut/%s.r3.out" % pid if x in ("E", "F") else "/tmp/mut/%s.r4.out" % pid))
+    src = "/tmp/mut/%s.out" % pid if x in ("A", "B") else ("/tmp/mut/%s.r2.out" % pid if x in ("C", "D") else ("/tmp/mut/%s.r3.out" % pid if x in ("E", "F") else ("/tmp/mut/%s.r4.out" % pid if x in ("G", "H") else "/tmp/mut/%s.r5.out" % pid)))
     meta = json.load(open("%s/%s.json" % (src, x)))
     wt = "/tmp/seedwt/%s-%s" % (pid, x)
     os.makedirs("/tmp/seedwt", exist_ok=True)
